@@ -15,7 +15,7 @@ Proof. exact load_returns_validated. Qed.
 Print Assumptions C11_load_returns_validated.
 
 Theorem C11_validated_means :
-  forall (F : Type) (lvalidate : F -> pyval -> res pyval) (lflag : F -> bool) (vrun : N -> list (str * pyval) -> bool) (dyn : bool) (vs : list N) (fs : list (str * node F)) (pre : str) (i : N) (d : list (str * val)) (df dy : list str), validate_errs F lvalidate lflag vrun (NSub dyn vs fs) pre (VCfg (Cfg i d df dy)) = [] -> feature_enabled F lflag fs d = true -> (forall (k : str) (f : F) (x : pyval), In (k, NLeaf f) fs -> dget k d = Some (VLeaf x) -> forall e : errk, lvalidate f x <> Err e) /\ (forall (k : str) (req : bool) (vs' : list N) (fs' : list (str * node F)), In (k, NCfgList req vs' fs') fs -> req = true -> dget k d <> Some (VLeaf PNone) /\ dget k d <> Some (VList [])) /\ (forall (k : str) (req : bool) (vs' : list N) (fs' : list (str * node F)) (l : list cfg), In (k, NCfgList req vs' fs') fs -> dget k d = Some (VList l) -> items_errs F lvalidate lflag vrun vs' fs' (path_join pre k) l 0 = []) /\ (forall (k : str) (d' : bool) (vs' : list N) (fs' : list (str * node F)) (sub : cfg), In (k, NSub d' vs' fs') fs -> dget k d = Some (VCfg sub) -> validate_errs F lvalidate lflag vrun (NSub d' vs' fs') (path_join pre k) (VCfg sub) = []) /\ (forall n : N, In n vs -> vrun n (leaf_values d) = true).
+  forall (F : Type) (lvalidate : F -> pyval -> res pyval) (lflag : F -> bool) (vrun : N -> list (str * pyval) -> bool) (dyn : bool) (vs : list N) (fs : list (str * node F)) (pre : str) (i : N) (d : list (str * val)) (df dy : list str), validate_errs F lvalidate lflag vrun (NSub dyn vs fs) pre (VCfg (Cfg i d df dy)) = [] -> feature_enabled F lflag fs d = true -> (forall (k : str) (f : F) (x : pyval), In (k, NLeaf f) fs -> dget k d = Some (VLeaf x) -> forall e : errk, lvalidate f x <> Err e) /\ (forall (k : str) (req : bool) (vs' : list N) (fs' : list (str * node F)) (fs'q : option (bool * list pyval)), In (k, NCfgList req vs' fs' fs'q) fs -> req = true -> dget k d <> Some (VLeaf PNone) /\ dget k d <> Some (VList [])) /\ (forall (k : str) (req : bool) (vs' : list N) (fs' : list (str * node F)) (fs'q : option (bool * list pyval)) (l : list cfg), In (k, NCfgList req vs' fs' fs'q) fs -> dget k d = Some (VList l) -> items_errs F lvalidate lflag vrun vs' fs' (path_join pre k) l 0 = []) /\ (forall (k : str) (d' : bool) (vs' : list N) (fs' : list (str * node F)) (sub : cfg), In (k, NSub d' vs' fs') fs -> dget k d = Some (VCfg sub) -> validate_errs F lvalidate lflag vrun (NSub d' vs' fs') (path_join pre k) (VCfg sub) = []) /\ (forall n : N, In n vs -> vrun n (leaf_values d) = true).
 Proof. exact validated_means. Qed.
 Print Assumptions C11_validated_means.
 
@@ -25,7 +25,64 @@ Proof. exact disabled_exempt. Qed.
 Print Assumptions C11_disabled_exempt.
 
 Theorem C11_validate_errs_list :
-  forall (F : Type) (lvalidate : F -> pyval -> res pyval) (lflag : F -> bool) (vrun : N -> list (str * pyval) -> bool) (req : bool) (vs : list N) (fs : list (str * node F)) (pre : str) (l : list cfg), validate_errs F lvalidate lflag vrun (NCfgList req vs fs) pre (VList l) = items_errs F lvalidate lflag vrun vs fs pre l 0.
+  forall (F : Type) (lvalidate : F -> pyval -> res pyval) (lflag : F -> bool) (vrun : N -> list (str * pyval) -> bool) (req : bool) (vs : list N) (fs : list (str * node F)) (fsq : option (bool * list pyval)) (pre : str) (l : list cfg), validate_errs F lvalidate lflag vrun (NCfgList req vs fs fsq) pre (VList l) = items_errs F lvalidate lflag vrun vs fs pre l 0.
 Proof. exact validate_errs_list. Qed.
 Print Assumptions C11_validate_errs_list.
 
+(* configuration objects offered to a list of configurations (append / item assignment / insert) are validated as a whole, against the item schema, before they are taken; and whether validation finds anything does not depend on the reference path *)
+
+Theorem C11_obj_item_validated :
+  forall (F : Type) (lvalidate lto_python : F -> pyval -> res pyval) (ldefault : F -> N -> pyval) (lcallable lflag : F -> bool) (vrun : N -> list (str * pyval) -> bool) (o : cop) (k : str) (src : cfg) (w : world) (pre : str) (c : cfg) (dyn : bool) (vs : list N) (fs : list (str * node F)) (w' : world) (c' : cfg), obj_list_op o = Some (k, src) -> apply_cop F lvalidate lto_python ldefault lcallable lflag vrun w pre c dyn vs fs o = (w', c', OOk) -> exists (req : bool) (vs' : list N) (fs' : list (str * node F)) (fs'q : option (bool * list pyval)) (l l' : list cfg), fget F k fs = Some (NCfgList req vs' fs' fs'q) /\ dget k (c_data c) = Some (VList l) /\ validate_errs F lvalidate lflag vrun (NSub false vs' fs') (path_index (path_join pre k) (N.of_nat (Datatypes.length l))) (VCfg src) = [] /\ dget k (c_data c') = Some (VList l') /\ In src l'.
+Proof. exact obj_item_validated. Qed.
+Print Assumptions C11_obj_item_validated.
+
+Theorem C11_validation_path_independent :
+  forall (F : Type) (lvalidate : F -> pyval -> res pyval) (lflag : F -> bool) (vrun : N -> list (str * pyval) -> bool) (nd : node F) (pre pre' : str) (v : val), validate_errs F lvalidate lflag vrun nd pre v = [] -> validate_errs F lvalidate lflag vrun nd pre' v = [].
+Proof. exact validation_path_independent. Qed.
+Print Assumptions C11_validation_path_independent.
+
+Theorem C11_obj_item_held_valid :
+  forall (F : Type) (lvalidate lto_python : F -> pyval -> res pyval) (ldefault : F -> N -> pyval) (lcallable lflag : F -> bool) (vrun : N -> list (str * pyval) -> bool) (o : cop) (k : str) (src : cfg) (w : world) (pre : str) (c : cfg) (dyn : bool) (vs : list N) (fs : list (str * node F)) (w' : world) (c' : cfg), obj_list_op o = Some (k, src) -> apply_cop F lvalidate lto_python ldefault lcallable lflag vrun w pre c dyn vs fs o = (w', c', OOk) -> exists (req : bool) (vs' : list N) (fs' : list (str * node F)) (fs'q : option (bool * list pyval)) (l' : list cfg), fget F k fs = Some (NCfgList req vs' fs' fs'q) /\ dget k (c_data c') = Some (VList l') /\ In src l' /\ (forall p : str, validate_errs F lvalidate lflag vrun (NSub false vs' fs') p (VCfg src) = []).
+Proof. exact obj_item_held_valid. Qed.
+Print Assumptions C11_obj_item_held_valid.
+
+From Cinco Require Import ConfigInst ConfigInstLemmas.
+
+(* what the code does with an object ASSIGNED to a sub-configuration slot: it is taken unvalidated; the unset required field is reported by the next whole-configuration validation (witness by computation on the concrete leaf instance), whereas the same object offered to a list is refused on the spot *)
+
+Theorem C11_set_obj_unvalidated_refuted :
+  let '(w1, c1, o1) := ex_obj_do ex_obj_w ex_obj_root [] ex_unset in let '(_, c2, o2) := ex_obj_do w1 c1 [] (XOp (CValidate false)) in o1 = OOk /\ defined c1 (sa "sub") = true /\ dget (sa "sub") (c_data c1) = Some (VCfg (snd (detached leaf lvalidate lto_python ldefault l_callable lflag (vrun []) ex_obj_w false [] ex_need []))) /\ o2 = OErr (EValidation (sa "sub.need")) /\ c2 = c1.
+Proof. exact set_obj_unvalidated_refuted. Qed.
+Print Assumptions C11_set_obj_unvalidated_refuted.
+
+Theorem C11_append_obj_rejected :
+  let '(w1, c1, _) := ex_obj_do ex_obj_w ex_obj_root [] (XOp (CSet (sa "items") (PList 0 []))) in let '(w2, c2, o2) := ex_obj_do w1 c1 [] (XObj RAppend (sa "items") false [] ex_need []) in let '(w3, c3, o3) := ex_obj_do w2 c2 [] (ex_set RAppend (sa "items")) in let '(_, c4, o4) := ex_obj_do w3 c3 [] (XObj (RInsert 0) (sa "items") false [] ex_need []) in o2 = OErr (EValidation (sa "items[0].need")) /\ c2 = c1 /\ o3 = OOk /\ dget (sa "items") (c_data c3) = Some (VList [snd (detached leaf lvalidate lto_python ldefault l_callable lflag (vrun []) w2 false [] ex_need [([], CSet (sa "need") (PInt 4))])]) /\ o4 = OErr (EValidation (sa "items[1].need")) /\ c4 = c3.
+Proof. exact append_obj_rejected. Qed.
+Print Assumptions C11_append_obj_rejected.
+
+Theorem C11_reoffered_obj_rejected_again :
+  let '(w1, c1, _) := ex_obj_do ex_obj_w ex_obj_root [] (XOp (CSet (sa "items") (PList 0 []))) in let '(w2, k2, c2, o2) := ex_obj_dos w1 None c1 (XObj RAppend (sa "items") false [] ex_need []) in let '(w3, k3, c3, o3) := ex_obj_dos w2 k2 c2 (XAgain RAppend (sa "items") []) in let '(w4, k4, c4, o4) := ex_obj_dos w3 k3 c3 (XAgain (RInsert 0) (sa "items") [([], CSet (sa "need") (PInt 4))]) in let '(_, _, c5, o5) := ex_obj_dos w4 k4 c4 (XAgain RAppend (sa "items") []) in o2 = OErr (EValidation (sa "items[0].need")) /\ o3 = o2 /\ c3 = c1 /\ o4 = OOk /\ k4 = None /\ o5 = OUnm /\ c5 = c4 /\ (exists it : cfg, dget (sa "items") (c_data c4) = Some (VList [it]) /\ dget (sa "need") (c_data it) = Some (VLeaf (PInt 4))).
+Proof. exact reoffered_obj_rejected_again. Qed.
+Print Assumptions C11_reoffered_obj_rejected_again.
+
+(* default items of a list of configurations: validated when they are built, and held to the rule afterwards like any other item -- the default mark plays no role in whole-configuration validation *)
+
+Theorem C11_default_items_validated :
+  forall (F : Type) (lvalidate lto_python : F -> pyval -> res pyval) (ldefault : F -> N -> pyval) (lcallable lflag : F -> bool) (vrun : N -> list (str * pyval) -> bool) (vs : list N) (fs' : list (str * node F)) (maps : list pyval) (w w' : world) (l : list icfg), build_items F lvalidate lto_python ldefault lcallable lflag vrun vs fs' maps w [] = (w', Some l) -> Datatypes.length l = Datatypes.length maps /\ (forall (it : icfg) (p : str), In it l -> validate_errs F lvalidate lflag vrun (NSub false vs fs') p (VCfg it) = []).
+Proof. exact default_items_validated. Qed.
+Print Assumptions C11_default_items_validated.
+
+Theorem C11_default_marked_list_validated :
+  forall (F : Type) (lvalidate : F -> pyval -> res pyval) (lflag : F -> bool) (vrun : N -> list (str * pyval) -> bool) (dyn : bool) (vs : list N) (fs : list (str * node F)) (pre : str) (i : N) (d : list (str * val)) (df dy : list str) (k : str) (req : bool) (vs' : list N) (fs' : list (str * node F)) (dfl : option (bool * list pyval)) (l : list icfg), validate_errs F lvalidate lflag vrun (NSub dyn vs fs) pre (VCfg (Cfg i d df dy)) = [] -> feature_enabled F lflag fs d = true -> In (k, NCfgList req vs' fs' dfl) fs -> smem k df = true -> dget k d = Some (VList l) -> items_errs F lvalidate lflag vrun vs' fs' (path_join pre k) l 0 = [] /\ (req = true -> l <> []).
+Proof. exact default_marked_list_validated. Qed.
+Print Assumptions C11_default_marked_list_validated.
+
+Theorem C11_default_list_built :
+  dget (sa "items") (c_data ex_dflt_root) = Some (VList [Cfg 1 [(sa "n", VLeaf (PInt 1)); (sa "s", VLeaf (PStr (sa "d")))] [sa "s"] []; Cfg 2 [(sa "n", VLeaf (PInt 2)); (sa "s", VLeaf (PStr (sa "abc")))] [] []]) /\ defined ex_dflt_root (sa "items") = false /\ validate_errs leaf lvalidate lflag (vrun []) (NSub false [] ex_fs_dflt) [] (VCfg ex_dflt_root) = [].
+Proof. exact default_list_built. Qed.
+Print Assumptions C11_default_list_built.
+
+Theorem C11_default_list_item_held_to_the_rule :
+  let step := fun (c : icfg) (ps : list pstep) (o : cop) => at_path leaf lvalidate lto_python ldefault l_callable lflag (vrun []) ps ex_dflt_w [] c false [] ex_fs_dflt o in let '(_, c1, o1) := step ex_dflt_root [PItem (sa "items") 0] (CReset (sa "n")) in let '(_, c2, o2) := step c1 [] (CValidate false) in let '(_, c3, o3) := step c2 [] (CReset (sa "items")) in let '(_, _, o4) := step c3 [] (CValidate false) in o1 = OOk /\ defined c1 (sa "items") = false /\ o2 = OErr (EValidation (sa "items[0].n")) /\ o3 = OOk /\ o4 = OOk /\ map fst (ids_cfg [] c3) = [[]; sa "items[0]"; sa "items[1]"] /\ map snd (ids_cfg [] c3) = [0; 3; 4].
+Proof. exact default_list_item_held_to_the_rule. Qed.
+Print Assumptions C11_default_list_item_held_to_the_rule.
